@@ -92,7 +92,8 @@ def dispatchList : List String → Option (Obs × Option Obs)
     let tame := !(paths.any negZeroToken)
     let sp : Obs :=
       [("err", "ok"), ("nosingle", "1"), ("hiddenok", "1")] ++
-      (if o.single ∧ distinct ∧ tame ∧ visible.length ≤ 3000 then [("cover", hexList (sortBytes visible))] else []) ++
+      (if !tame then [("~negzero", "1")] else []) ++
+      (if o.single ∧ distinct ∧ visible.length ≤ 3000 then [("cover", hexList (sortBytes visible))] else []) ++
       (if uniformWidth paths ∧ distinct ∧ !crowded paths then [("perm", "1")] else [])
     some (m, some sp)
   | _ => none
